@@ -11,33 +11,72 @@ Import ListNotations. Open Scope N_scope.
 KIND = {"grpc": "Grpc", "gin": "Gin", "dubbo": "Dubbo"}
 
 
+def aval(h):
+    vs = [vlib.coq_hex(v) for v in h["vals"]]
+    if h["shape"] == "s":
+        return "AStr %s" % vs[0]
+    if h["shape"] == "l":
+        return "AList [%s]" % "; ".join(vs)
+    return "AOther"
+
+
 def term(c):
-    return "{| cc_kind := %s; cc_roundtrip := %s; cc_key := %s; cc_xid := %s; cc_got := %s |}" % (
-        KIND[c["kind"]], "true" if c["roundtrip"] else "false", vlib.coq_hex(c["key"]), vlib.coq_hex(c["xid"]),
-        vlib.coq_hex(c["got"]))
+    return "{| cc_kind := %s; cc_roundtrip := %s; cc_hdrs := [%s]; cc_xid := %s; cc_got := %s |}" % (
+        KIND[c["kind"]], "true" if c["roundtrip"] else "false",
+        "; ".join("(%s, %s)" % (vlib.coq_hex(h["key"]), aval(h)) for h in c["hdrs"]),
+        vlib.coq_hex(c["xid"]), vlib.coq_hex(c["got"]))
 
 
 def lower(b):
     return bytes(x + 32 if 65 <= x <= 90 else x for x in b)
 
 
-def accepted(kind, key):
-    """independent statement of 'accepted key spellings' (docs/C07.md)"""
-    if kind == "grpc":          # HTTP/2 metadata keys are case-insensitive (lower-cased on the wire)
-        return lower(key) == b"tx_xid"
-    if kind == "gin":           # HTTP header names are case-insensitive
-        return lower(key) == b"tx_xid"
-    return key in (b"SEATA_XID", b"seata_xid", b"TX_XID", b"tx_xid")
+def strings_of(h):
+    """the strings a header / attachment value holds: itself, or the elements of a list of strings
+    (multi-valued metadata / HTTP headers; a []string-wrapped dubbo attachment); none for other types"""
+    if h["shape"] == "o":
+        return []
+    return [bytes.fromhex(v) for v in h["vals"]]
+
+
+DUBBO_KEYS = (b"SEATA_XID", b"seata_xid", b"TX_XID", b"tx_xid")
+
+
+def expected(c):
+    """independent statement of what the callee must find (docs/C07.md): the sender half carries
+    exactly the caller's xid whatever else is in the outgoing context; a receiver finds the first
+    value under the xid key (gRPC metadata keys and HTTP header names are case-insensitive; dubbo:
+    the four attachment keys in their order of preference, a []string value standing for its first
+    element)"""
+    if c["roundtrip"]:
+        return bytes.fromhex(c["xid"])
+    if c["kind"] in ("grpc", "gin"):
+        merged = [v for h in c["hdrs"] if lower(bytes.fromhex(h["key"])) == b"tx_xid" for v in strings_of(h)]
+        return merged[0] if merged else b""
+    for K in DUBBO_KEYS:
+        for h in c["hdrs"]:
+            if bytes.fromhex(h["key"]) == K:
+                vs = strings_of(h)
+                if vs and vs[0]:
+                    return vs[0]
+    return b""
+
+
+def show_hdrs(c):
+    return [(bytes.fromhex(h["key"]), h["shape"], [bytes.fromhex(v) for v in h["vals"]]) for h in c["hdrs"]]
 
 
 def oracle(c):
     fails = []
-    key, xid, got = bytes.fromhex(c["key"]), bytes.fromhex(c["xid"]), bytes.fromhex(c["got"])
+    xid, got = bytes.fromhex(c["xid"]), bytes.fromhex(c["got"])
     if c["panicked"]:
         return ["the integration or the callee panicked"]
-    want = xid if (c["roundtrip"] or accepted(c["kind"], key)) else b""
+    want = expected(c)
     if got != want:
-        fails.append("callee found xid %r, the caller carried %r under key %r" % (got, xid, key if not c["roundtrip"] else "<sender half>"))
+        if c["roundtrip"]:
+            fails.append("callee found xid %r, the caller's transaction is %r (outgoing context already held %s)" % (got, xid, show_hdrs(c)))
+        else:
+            fails.append("callee found xid %r, the request carried %r in %s" % (got, want, show_hdrs(c)))
     if c["kind"] == "gin" and not want and not c["ran"]:
         return fails            # the middleware refuses a request without xid (400): nothing to carry
     if not c["ran"]:
@@ -52,27 +91,36 @@ def oracle(c):
             fails.append("callee's role is %s, not Participant" % c["role"])
         if c["reqs"]:
             fails.append("the callee sent %s to the coordinator" % c["reqs"])
-    ended = [r for r in c["reqs"] if r.split(":", 1)[0] in ("commit", "rollback") and xid and r.split(":", 1)[1] == c["xid"]]
+    ended = [r for r in c["reqs"] if r.split(":", 1)[0] in ("commit", "rollback") and want and r.split(":", 1)[1] == want.hex()]
     if ended:
         fails.append("the callee ended the carried transaction: %s" % ended)
     return fails
 
 
 def slim(c):
-    return {k: c[k] for k in ("kind", "roundtrip", "key", "xid", "got", "ran", "seata", "inner", "role", "reqs", "status", "ret")}
+    return {k: c[k] for k in ("id", "kind", "roundtrip", "hdrs", "xid", "got", "ran", "seata", "inner", "role", "reqs", "status", "ret")}
 
 
-def run(chk):
+def run(chk, cases_in=None):
     ok, out = vlib.coq_make(["Tm/Carrier.vo"])
     if not ok:
         raise vlib.Broken("Tm/Carrier.v does not compile:\n" + out[-1500:])
-    data, secs = vlib.run_harness("tmcarrier", chk.tmp("carrier.json"), timeout=900, tier=chk.tier, seed=chk.seed)
+    kw = {}
+    if cases_in is not None:
+        import json
+        p = chk.tmp("carrier_in.json")
+        json.dump(cases_in, open(p, "w"))
+        kw["in"] = p
+    data, secs = vlib.run_harness("tmcarrier", chk.tmp("carrier.json"), timeout=900, tier=chk.tier, seed=chk.seed, **kw)
     cases = data["cases"]
+    if cases_in is not None:
+        for c in cases:
+            print("callee found %r; failed clauses: %s" % (bytes.fromhex(c["got"]), oracle(c)))
     mism = vlib.eval_mismatches("C07c", HEADER, [term(c) for c in cases], fn="cmismatches", case_type="ccase", shard=150)
     failing = [(i, oracle(c)) for i, c in enumerate(cases)]
     failing = [(i, f) for i, f in failing if f]
     seen = set()
-    for i, f in sorted(failing, key=lambda x: len(cases[x[0]]["xid"])):
+    for i, f in sorted(failing, key=lambda x: len(cases[x[0]]["xid"]) + len(cases[x[0]]["got"]) + 50 * len(cases[x[0]]["hdrs"])):
         k = cases[i]["kind"] + f[0][:25]
         if k in seen or len(seen) >= 4:
             continue
@@ -89,4 +137,6 @@ def run(chk):
             "oracle_failures": len(failing), "harness_secs": round(secs, 1),
             "by_kind": dict(collections.Counter(c["kind"] + (".roundtrip" if c["roundtrip"] else ".server") for c in cases)),
             "xid_carried": sum(1 for c in cases if c["got"]),
+            "with_preexisting_headers": sum(1 for c in cases if c["roundtrip"] and c["hdrs"]),
+            "value_shapes": dict(collections.Counter(h["shape"] + str(min(len(h["vals"]), 2)) for c in cases for h in c["hdrs"])),
             "sample": slim(cases[len(cases) // 2])}
